@@ -56,6 +56,10 @@ func (c *chunkedBodyWriter) Write(p []byte) (n int, err error) {
 		}
 		c.wroteHeader = true
 	}
+	// an empty chunk is the terminating chunk: it must only be written by Finalize
+	if len(p) == 0 {
+		return 0, nil
+	}
 	if err = ext.WriteChunk(c.w, p, false); err != nil {
 		return
 	}
